@@ -37,6 +37,23 @@ def op_class(op: str) -> str:
     return "unknown"
 
 
+SELECTS_FIRST = {"Reshape", "Transpose", "Squeeze", "Unsqueeze", "Flatten", "Identity", "Expand", "Gather", "GatherElements", "GatherND",
+                 "Slice", "Tile", "DepthToSpace", "SpaceToDepth", "ReverseSequence", "Compress", "Split"}
+
+
+def int_class(op: str) -> str:
+    """Class of an operator for the static integer-range prover (J2O_Vocab.IntClassOf)."""
+    if op in SELECTS_FIRST:
+        return "selects_first"
+    if op in ("Concat", "Where", "ScatterElements", "ScatterND", "Pad"):
+        return "joins"
+    if op in POINTWISE_BINARY:
+        return "pointwise_nary"
+    if op in POINTWISE_UNARY:
+        return "pointwise"
+    return "unknown"
+
+
 def impl_sets() -> dict[str, list[str]]:
     """Every module-level set / frozenset of ONNX operator names in ir_optimizations (facts)."""
     import onnx.defs as od
@@ -274,3 +291,131 @@ def replay_vocab(graphs: list[dict[str, Any]]) -> list[dict[str, Any]]:
             rec["bad"] = bad
         out.append(rec)
     return out
+
+
+# ---------------------------------------------------------------------------------------------
+# C17: members of _INTEGER_VALUE_PRESERVING_OPS between a bounded Range and a narrowing cast pair
+# ---------------------------------------------------------------------------------------------
+_INT_OPERANDS = {
+    # op -> (extra inputs after the data operand, attrs); "x" = run-time tensor of the data type,
+    # ("c", array) = integer constant
+    "Concat": (["x"], {"axis": 0}),
+    "Gather": ([("c", np.array([0, 5, 99], np.int64))], {"axis": 0}),
+    "Slice": ([("c", np.array([0], np.int64)), ("c", np.array([50], np.int64))], {}),
+    "Tile": ([("c", np.array([2], np.int64))], {}),
+    "Expand": ([("c", np.array([2, 100], np.int64))], {}),
+    "Reshape": ([("c", np.array([10, 10], np.int64))], {}),
+    "Squeeze": ([], {}),
+    "Unsqueeze": ([("c", np.array([0], np.int64))], {}),
+    "Transpose": ([], {}),
+    "Flatten": ([], {"axis": 0}),
+    "Identity": ([], {}),
+    "Pad": ([("c", np.array([1, 1], np.int64)), "xs"], {}),
+    "Where": None,
+}
+
+
+def int_vocab_cases(ops: list[str]) -> list[dict[str, Any]]:
+    out = []
+    for op in ops:
+        for src, mid in (("INT32", "INT8"), ("INT64", "UINT8")):
+            out.append({"op": op, "src": src, "mid": mid})
+    return out
+
+
+def replay_int_vocab(cases: list[dict[str, Any]]) -> list[dict[str, Any]]:
+    """Range(0, 100) -> op(range, run-time operands with out-of-range values) -> Cast(narrow) -> Cast(back)."""
+    import onnx
+    import onnx.defs as od
+    import onnx_ir as ir
+    from onnx import TensorProto as TP
+    from onnx import helper as oh
+    from jax2onnx.converter import ir_optimizations as io
+
+    from harness import onnxutil as U
+
+    res = []
+    for c in cases:
+        op = c["op"]
+        rec: dict[str, Any] = {"op": op, "src": c["src"], "mid": c["mid"], "status": "ok"}
+        code = getattr(TP, c["src"])
+        npdt = np.int32 if c["src"] == "INT32" else np.int64
+        spec = _INT_OPERANDS.get(op, "generic")
+        extra: list[Any]
+        attrs: dict[str, Any]
+        if spec is None:
+            rec["status"] = "uninstantiable"
+            res.append(rec)
+            continue
+        if spec == "generic":
+            sch = None
+            for v in (21, 22, 23, 24):
+                try:
+                    sch = od.get_schema(op, v, "")
+                    break
+                except Exception:  # noqa: BLE001
+                    continue
+            if sch is None or not sch.inputs or any(a.required for a in sch.attributes.values()):
+                rec["status"] = "uninstantiable"
+                res.append(rec)
+                continue
+            t0 = sch.inputs[0].type_str
+            extra = []
+            ok = True
+            for inp in sch.inputs[1:max(sch.min_input, 2)]:
+                if inp.type_str == t0:
+                    extra.append("x")
+                else:
+                    ok = False
+            if not ok:
+                rec["status"] = "uninstantiable"
+                res.append(rec)
+                continue
+            attrs = {}
+        else:
+            extra, attrs = spec
+        inits = [U.const("start", np.array(0, npdt)), U.const("limit", np.array(100, npdt)), U.const("delta", np.array(1, npdt))]
+        nodes = [oh.make_node("Range", ["start", "limit", "delta"], ["r"], name="range")]
+        ins = ["r"]
+        inputs = []
+        feeds = {}
+        for j, e in enumerate(extra):
+            if e == "x":
+                inputs.append(U.vi(f"x{j}", code, [100]))
+                feeds[f"x{j}"] = (np.array([200, -300, 70000, -129, 128, 255, 256, -1] * 13)[:100]).astype(npdt)
+                ins.append(f"x{j}")
+            elif e == "xs":
+                inputs.append(U.vi(f"x{j}", code, []))
+                feeds[f"x{j}"] = np.array(70000, npdt)
+                ins.append(f"x{j}")
+            else:
+                inits.append(U.const(f"k{j}", e[1]))
+                ins.append(f"k{j}")
+        nodes.append(oh.make_node(op, ins, ["y"], name="op", **attrs))
+        nodes.append(oh.make_node("Cast", ["y"], ["m"], to=getattr(TP, c["mid"]), name="c1"))
+        nodes.append(oh.make_node("Cast", ["m"], ["z"], to=code, name="c2"))
+        nodes.append(oh.make_node("Identity", ["z"], ["out"], name="id"))
+        m0 = U.model(nodes, inputs, [U.vi("out", code, None)], inits, opset=21,
+                     value_info=[U.vi("r", code, [100]), U.vi("y", code, None), U.vi("m", getattr(TP, c["mid"]), None), U.vi("z", code, None)])
+        try:
+            before = U.ort_run(m0, feeds)
+        except Exception as ex:  # noqa: BLE001
+            rec["status"] = "uninstantiable"
+            rec["why"] = str(ex)[:120]
+            res.append(rec)
+            continue
+        im = ir.from_proto(m0)
+        io.remove_redundant_casts_ir(im.graph)
+        m1 = ir.to_proto(im)
+        rec["casts_after"] = sum(1 for n in m1.graph.node if n.op_type == "Cast")
+        try:
+            after = U.ort_run(m1, feeds)
+            rec["same"] = U.same_array(before[0], after[0])
+            if not rec["same"]:
+                bad = np.flatnonzero(before[0].ravel() != after[0].ravel())
+                rec["witness"] = {"index": int(bad[0]), "before": int(before[0].ravel()[bad[0]]), "after": int(after[0].ravel()[bad[0]])}
+        except Exception as ex:  # noqa: BLE001
+            rec["same"] = False
+            rec["witness"] = {"invalid_after": str(ex)[:160]}
+        res.append(rec)
+    return res
